@@ -54,6 +54,7 @@ func (s *Svc) Best(_ *Empty, r *BlockInfo) error {
 }
 func (s *Svc) Produce(q *ProduceReq, r *ProduceRsp) error { *r = *s.n.Produce(q); return nil }
 func (s *Svc) AddBlock(b *[]byte, r *string) error        { *r = s.n.AddBlock(*b); return nil }
+func (s *Svc) AddBlockSync(b *[]byte, r *string) error    { *r = s.n.addBlock(*b, true); return nil }
 func (s *Svc) Dump(root *[]byte, r *Dump) error {
 	var rt []byte
 	if len(*root) > 0 {
@@ -396,6 +397,13 @@ func (c *Client) Produce(q *ProduceReq) (*ProduceRsp, error) {
 	return &r, err
 }
 func (c *Client) AddBlock(b []byte) (string, error) { var r string; err := c.Call("AddBlock", &b, &r); return r, err }
+
+// AddBlockSync delivers the block the way the syncer does (message.AddBlock with IsSync set).
+func (c *Client) AddBlockSync(b []byte) (string, error) {
+	var r string
+	err := c.Call("AddBlockSync", &b, &r)
+	return r, err
+}
 func (c *Client) Dump(root []byte) (*Dump, error) {
 	var r Dump
 	if root == nil {
